@@ -42,6 +42,9 @@ TECHNIQUE += '; accessor evaluation of the correction helpers; finite-domain eva
 TECHNIQUE += '; decision-table evaluation of the norm predicate with a stub overlap matrix; vendor factor table evaluated per shell type'
 EXPLANATION += ' Changed / added: (R8) the norm predicate is no longer matched against a loop template: it is interpreted with compute_overlap standing for a fixed non-diagonal matrix on 15 orbital sets whose S-norms are known by construction (each spin, first / last orbital, too large / too small, both thresholds, square-root and square scale, identity-normalised) -- a vectorised rewrite stays silent, a verdict that looks at one spin block only is reported; (R10) vendor corrections rescale every primitive with the documented factor and direction per shell type; (R12) the [Atoms] unit keyword (C04-R6); (R13) a pure-function tag that follows [MO] survives the orbital reader (the evaluated clause C01-R15).'
 # --- end metadata batch 7
+# --- metadata added for batch 8
+EXPLANATION += ' Added: (R14, R15) the shells sit on the nuclei the file says: Molden [GTO] block numbers and Molekel `$$` separators, reader against writer (C01-R19 / R12).'
+# --- end metadata batch 8
 
 
 def static_len(e):
